@@ -475,6 +475,8 @@ func (s *Service) putInbox(theirDID string, o *inbox) error {
 		return err
 	}
 
+	verifYield()
+
 	return s.msgStore.Put(theirDID, b)
 }
 
